@@ -48,7 +48,15 @@ def as_slice(v, kind=None):
     raise Unsupported('as_slice of %s' % type(v).__name__)
 
 def concrete_bytes(items):
-    return bytes(items) if all(isinstance(b, int) and not isinstance(b, bool) for b in items) else None
+    out = bytearray()
+    for b in items:
+        if isinstance(b, int) and not isinstance(b, bool):
+            out.append(b)
+        elif isinstance(b, WChar) and z3.is_bv_value(b.cp):
+            out += chr(b.cp.as_long()).encode('utf-8')
+        else:
+            return None
+    return bytes(out)
 
 def explode(I, items):
     """byte-level view of string elements: WChar -> its UTF-8 bytes (fresh symbolic bytes tied to the code point)"""
@@ -2025,3 +2033,30 @@ def m_hasher_write_int(I, c, args, fr):
 def m_hasher_write_len(I, c, args, fr):
     feed(I, deref(args[0]), ('len', args[1]))
     return UNIT
+
+
+def text_items(I, items):
+    """string elements for text given as bytes: concrete multi-byte UTF-8 sequences become scalar elements (WChar with a constant
+    code point); symbolic and ASCII elements are kept"""
+    items = list(items)
+    if not any(isinstance(x, int) and x >= 0x80 for x in items):
+        return items
+    out = []
+    i = 0
+    while i < len(items):
+        x = items[i]
+        if not (isinstance(x, int) and x >= 0x80):
+            out.append(x); i += 1; continue
+        n = 2 if x >> 5 == 0b110 else 3 if x >> 4 == 0b1110 else 4 if x >> 3 == 0b11110 else 0
+        chunk = items[i:i + n]
+        if n == 0 or len(chunk) < n or not all(isinstance(y, int) for y in chunk):
+            raise Unsupported('text with a malformed or partly symbolic multi-byte sequence')
+        cp = ord(bytes(chunk).decode('utf-8'))
+        w = WChar(z3.BitVecVal(cp, 32), n)
+        if I is not None:
+            if not hasattr(I, '_wchars'):
+                I._wchars = {}
+            I._wchars[w.cp.get_id()] = w
+        out.append(w)
+        i += n
+    return out
